@@ -18,7 +18,7 @@ import (
 // The rule-name pool mixes the three resolution levels: names defined for this
 // call, names registered globally in TestMain (one of which, "dir", shadows a
 // built-in in this process), built-ins, and unknown names.
-var c16Names = []string{"cfn1", "cfn2", "gcustom1", "gcustom2", "shadowed", "dir", "phone", "nosuch", "Nope", "botheq=7", "exist"}
+var c16Names = []string{"cfn1", "cfn2", "gcustom1", "gcustom2", "shadowed", "dir", "phone", "nosuch", "Nope", "botheq=7", "exist", "Phone", "REQUIRED", "Cfn1", "Gcustom1", "Exist"} // (names differ by case: Phone is not phone)
 
 func genC16Case(t *rapid.T) *StructCase {
 	callFns := []string{}
